@@ -9,6 +9,12 @@
 // empty session pools in a GOMAXPROCS=1 worker process (pool reuse is deterministic) and
 // judged step by step against the reference model in model.go.
 //
+// Configurations: id source x storage x AbsoluteTimeout x RequestCtx {fresh per request, one
+// RequestCtx shared by all requests of the history and reset between them like the fasthttp
+// server does on a keep-alive connection / through its ctx pool}. On the shared ctx every
+// client's id lands in the request buffer that held the previous client's id, so whatever the
+// session code keeps beyond a request without copying (storage keys, ...) gets rewritten.
+//
 //	part 1 (both tiers)  exhaustive: every history over a family's alphabet up to its depth
 //	part 2               breadth-first search with state de-duplication over the full alphabet
 package main
@@ -39,15 +45,15 @@ func families(quick bool) []Family {
 	if quick {
 		return []Family{
 			{Name: "full-d3", Ops: fullAlphabet(), Depth: 3, Symmetric: true},
-			{Name: "core-d4", Ops: coreOps(), Depth: 4},
-			{Name: "timing-d5", Ops: timingOps(), Depth: 5, AbsOnly: true},
+			{Name: "core-d4", Ops: coreOps(), Depth: 4, Ctx: ctxSharedAbsOff},
+			{Name: "timing-d5", Ops: timingOps(), Depth: 5, AbsOnly: true, Ctx: ctxFresh},
 		}
 	}
 	return []Family{
 		{Name: "full-d3", Ops: fullAlphabet(), Depth: 3, Symmetric: true},
 		{Name: "core-d4", Ops: coreOps(), Depth: 4},
-		{Name: "small-d5", Ops: smallOps(), Depth: 5},
-		{Name: "timing-d6", Ops: timingOps(), Depth: 6, AbsOnly: true},
+		{Name: "small-d5", Ops: smallOps(), Depth: 5, Ctx: ctxSharedAbsOff},
+		{Name: "timing-d6", Ops: timingOps(), Depth: 6, AbsOnly: true, Ctx: ctxFresh},
 	}
 }
 
@@ -95,6 +101,12 @@ func runHistory(cfg Cfg, hist []int, l *core.Local) result {
 		if i == len(hist)-1 {
 			// prefixes were counted when they were the whole history
 			l.Add("transitions", 1)
+			if cfg.Ctx == "shared" && i > 0 {
+				l.Add("av_request_on_reused_ctx", 1)
+			}
+			if w.overwritten {
+				l.Add("av_reused_ctx_other_id_same_length", 1)
+			}
 			l.Add("unspecified_skipped", int64(info.Unspec))
 			if info.Outcome != "" {
 				l.Outcome(info.Outcome)
@@ -131,6 +143,18 @@ func count(l *core.Local, op Op, o *obsT, info stepInfo) {
 
 func record(l *core.Local, cfg Cfg, hist []int, res result) {
 	v := res.Viol
+	sig, onFresh := v.Sig, ""
+	if cfg.Ctx == "shared" {
+		// classification only: does the same history violate on fresh RequestCtxs too?
+		f := cfg
+		f.Ctx = "fresh"
+		if r2 := runHistory(f, hist[:res.At+1], core.NewLocal()); r2.Viol == nil && !r2.NA {
+			onFresh = "passes"
+			sig += " reused-ctx-only" // something kept across requests depends on the request buffers
+		} else {
+			onFresh = "violates too"
+		}
+	}
 	cs := map[string]any{
 		"config":  cfg.String(),
 		"history": strings.Join(opNames(hist[:res.At+1]), ","),
@@ -140,10 +164,11 @@ func record(l *core.Local, cfg Cfg, hist []int, res result) {
 			}
 			return 0
 		}()},
-		"trace":  res.Trace,
-		"replay": fmt.Sprintf("C15_DEBUG='%s;%s' ./check C15 quick", cfgSpec(cfg), strings.Join(opNames(hist[:res.At+1]), ",")),
+		"trace":                              res.Trace,
+		"same_history_on_fresh_request_ctxs": onFresh,
+		"replay":                             fmt.Sprintf("C15_DEBUG='%s;%s' ./check C15 quick", cfgSpec(cfg), strings.Join(opNames(hist[:res.At+1]), ",")),
 	}
-	l.Violate(v.Sig, v.What, cs, v.Observed, v.Expected)
+	l.Violate(sig, v.What, cs, v.Observed, v.Expected)
 }
 
 func cfgSpec(c Cfg) string {
@@ -151,7 +176,7 @@ func cfgSpec(c Cfg) string {
 	if c.Abs {
 		a = "on"
 	}
-	return c.Source + "," + c.Storage + "," + a
+	return c.Source + "," + c.Storage + "," + a + "," + c.Ctx
 }
 
 // ---------------------------------------------------------------------------
@@ -167,7 +192,7 @@ func workItems(fams []Family) []workItem {
 	var out []workItem
 	for fi, f := range fams {
 		for _, c := range allCfgs() {
-			if f.AbsOnly && !c.Abs {
+			if !f.applies(c) {
 				continue
 			}
 			for _, op := range f.Ops {
@@ -292,7 +317,7 @@ func main() {
 		r.Violate("worker-crashed", "a worker process died (fatal runtime error or kill)", c, nil, nil)
 	}
 	c := r.P.Counters
-	for _, k := range []string{"av_live_session_resumed", "av_resumed_with_data", "av_forged_id_presented", "av_idle_expired_id_presented", "av_abs_expired_id_presented", "av_ended_id_presented"} {
+	for _, k := range []string{"av_live_session_resumed", "av_resumed_with_data", "av_forged_id_presented", "av_idle_expired_id_presented", "av_abs_expired_id_presented", "av_ended_id_presented", "av_request_on_reused_ctx", "av_reused_ctx_other_id_same_length"} {
 		if c[k] == 0 && len(r.P.Violations) == 0 {
 			core.Fatal("vacuous: counter %s is zero", k)
 		}
@@ -300,9 +325,12 @@ func main() {
 	fams := families(r.Quick())
 	var famDesc []map[string]any
 	for _, f := range fams {
-		cf := "all 12"
+		cf := fmt.Sprintf("%d of %d", f.nCfgs(), len(allCfgs()))
 		if f.AbsOnly {
-			cf = "the 6 with AbsoluteTimeout"
+			cf += ", those with AbsoluteTimeout"
+		}
+		if f.Ctx != "" {
+			cf += ", " + f.Ctx
 		}
 		famDesc = append(famDesc, map[string]any{"name": f.Name, "depth": f.Depth, "alphabet_size": len(f.Ops), "alphabet": opNames(f.Ops), "configurations": cf, "user_symmetry_reduction": f.Symmetric})
 	}
@@ -318,8 +346,8 @@ func main() {
 		},
 		"dedup_search": bfs,
 		"bounds": map[string]any{
-			"configurations":     "source {cookie, header, query} x storage {built-in memory, injected TTL storage on the harness clock} x AbsoluteTimeout {off, 12 s}; IdleTimeout 10 s",
-			"clients":            "A, B: replay the id the server last sent (cookie jar honouring Max-Age/Expires/deletion; response header for header source); M: presents `evil`, `s999`, the id most recently ended by Destroy/Regenerate/Reset/store.Delete, the last id A or B ever received",
+			"configurations":     "source {cookie, header, query} x storage {built-in memory, injected map-based TTL storage on the harness clock that keeps the key strings it is given} x AbsoluteTimeout {off, 12 s} x RequestCtx {fresh per request, one shared by all requests of the history and reset between them as the fasthttp server does on keep-alive connections / through its ctx pool}; IdleTimeout 10 s",
+			"clients":            "A, B: replay the id the server last sent (cookie jar honouring Max-Age/Expires/deletion; response header for header source); M: presents `evil`, `s0` (server's format and length, never issued), the id most recently ended by Destroy/Regenerate/Reset/store.Delete, the last id A or B ever received; the id is always the first query argument / header / cookie of its request",
 			"clock_steps_s":      []int{tShort, tIdle, tAbs, tHalf},
 			"exhaustive_depths":  famDesc,
 			"dedup_search_depth": bfs.MaxDepth,
@@ -332,6 +360,7 @@ func main() {
 			"time: time.Now of session.go/store.go through the vtime shim and utils.Timestamp through the overlay clock, both set by the harness; whole-second steps",
 			"histories are sequential (one request at a time); concurrency inside the session package is not explored here",
 			"each history starts from empty session pools (VerifResetPools) in a GOMAXPROCS=1 process with the collector off during the history, so pool reuse inside a history is deterministic",
+			"shared RequestCtx: requests are handed to app.Handler() on one fasthttp.RequestCtx that is reset (user values, Request, Response) between requests exactly as fasthttp's serveConn / ctx pool do; the bytes left in its buffers are not part of the canonical state key",
 			"de-duplicating search: two histories that reach the same canonical key (model state, decoded storage contents, client ids, pooled Session/Middleware digest; ids renamed, times relative, A<->B swapped) are assumed to have the same futures",
 			"exactly on a deadline, and between the old and a restarted absolute deadline after Regenerate/Reset, either behaviour is accepted and the model follows the implementation",
 		}})
@@ -358,10 +387,13 @@ func debugHistory(spec string) {
 	workerSetup()
 	parts := strings.SplitN(spec, ";", 2)
 	f := strings.Split(parts[0], ",")
-	if len(parts) != 2 || len(f) != 3 {
-		core.Fatal("C15_DEBUG=source,storage,on|off;op,op,...  ops: %s", strings.Join(opNames(fullAlphabet()), " "))
+	if len(parts) != 2 || (len(f) != 3 && len(f) != 4) {
+		core.Fatal("C15_DEBUG=source,storage,on|off[,fresh|shared];op,op,...  ops: %s", strings.Join(opNames(fullAlphabet()), " "))
 	}
-	cfg := Cfg{f[0], f[1], f[2] == "on"}
+	cfg := Cfg{f[0], f[1], f[2] == "on", "fresh"}
+	if len(f) == 4 {
+		cfg.Ctx = f[3]
+	}
 	hist, err := parseHistory(parts[1])
 	if err != nil {
 		core.Fatal("%v", err)
